@@ -2,22 +2,27 @@
    Only statements, each closed by [exact] of a lemma proved in Proofs/, with Print Assumptions beneath.
 
    Print.v defines the printer: a layout is a concrete syntax tree (the document plus, at every slot, the blank,
-   separator and quote style chosen there); [pr_* c k] is the text of c followed by k, [erase_* c] the document.
+   separator, quote style and numeric spelling chosen there); [pr_file c k] is the text of c followed by k,
+   [erase_file c] the document (descriptor AST of Ast.v), [wf_file c] what the grammar demands of a layout.
 
-   FULL STATEMENT (DESIGN.md 5.15), not yet proved for the whole grammar:
-     C15_roundtrip   : wf_file c -> parse_file (pr_file c []) = POk [] (erase_file c)
-     C15_layout_free : wf_file c1 -> wf_file c2 -> erase_file c1 = erase_file c2 ->
-                       parse_file (pr_file c1 []) = parse_file (pr_file c2 [])
-   What is proved is listed below, production by production (the theorems C15_roundtrip_partial_xxx); the productions that are
-   not listed (see fam/idl/NOTES.md) are carried by the three-way correspondence of pv/props/c15.py. *)
+   FULL STATEMENT (DESIGN.md 5.15) -- proved:
+     C15_roundtrip      : wf_file c -> parse_file (pr_file c []) = POk [] (erase_file c)
+     C15_layout_free    : wf_file c1 -> wf_file c2 -> erase_file c1 = erase_file c2 ->
+                          parse_file (pr_file c1 []) = parse_file (pr_file c2 [])
+     C15_keyword_prefix : an identifier that merely begins with a keyword is not read as the keyword (token level), and
+     C15_keyword_prefix_document : a document that uses such identifiers in every position where the keyword is tried
+                          first is well-formed and hence read back with these names as identifiers.
+   The theorems per production (C15_roundtrip_<production>) are kept: they hold for any continuation of the text, not only
+   at the end of a file. *)
 From PVIdl Require Import Comb Ast Parser Print Proofs.Total Proofs.RoundTok Proofs.RoundPath Proofs.RoundAnn Proofs.RoundTy
-  Proofs.RoundKit Proofs.RoundNum Proofs.RoundConst Proofs.RoundItem.
+  Proofs.RoundKit Proofs.RoundNum Proofs.RoundConst Proofs.RoundDecl Proofs.RoundItem Proofs.RoundField Proofs.RoundStruct
+  Proofs.RoundFn Proofs.RoundFile.
 
 (* identifiers, followed by anything that does not continue a word *)
-Theorem C15_roundtrip_partial_ident : forall s k,
+Theorem C15_roundtrip_ident : forall s k,
   is_ident s = true -> hd_sat (fun b => negb (identch b)) k = true -> p_ident (s ++ k) = POk k s.
 Proof. exact rt_ident. Qed.
-Print Assumptions C15_roundtrip_partial_ident.
+Print Assumptions C15_roundtrip_ident.
 
 (* a keyword is read as the keyword only as a whole word ... *)
 Theorem C15_keyword_whole_word : forall kw k, wordend k = true -> p_keyword kw (kw ++ k) = POk k tt.
@@ -33,108 +38,192 @@ Proof. exact keyword_not_ident. Qed.
 Print Assumptions C15_keyword_prefix.
 
 (* blanks: any non-empty sequence of white-space runs and comments in the three styles *)
-Theorem C15_roundtrip_partial_blank : forall lf bl k,
+Theorem C15_roundtrip_blank : forall lf bl k,
   wf_blank bl = true -> bl <> [] -> nb k = true -> (length (pr_blank bl k) < lf)%nat ->
   p_blank lf (pr_blank bl k) = POk k tt.
 Proof. exact rt_blank. Qed.
-Print Assumptions C15_roundtrip_partial_blank.
+Print Assumptions C15_roundtrip_blank.
 
 (* optional blank slots, empty or not *)
-Theorem C15_roundtrip_partial_opt_blank : forall lf bl k,
+Theorem C15_roundtrip_opt_blank : forall lf bl k,
   wf_blank bl = true -> nb k = true -> (length (pr_blank bl k) < lf)%nat ->
   exists o, opt (p_blank lf) (pr_blank bl k) = POk k o.
 Proof. exact rt_oblank. Qed.
-Print Assumptions C15_roundtrip_partial_opt_blank.
+Print Assumptions C15_roundtrip_opt_blank.
 
 (* optional list separators: none, ',' or ';' (followed by an optional blank) *)
-Theorem C15_roundtrip_partial_separator : forall lf s k,
+Theorem C15_roundtrip_separator : forall lf s k,
   wf_sep s = true -> nb k = true -> hd_sat (fun b => negb (bmem b set_list_separator)) k = true ->
   (length (pr_sep s k) < lf)%nat ->
   exists o, opt (p_list_separator lf) (pr_sep s k) = POk k o.
 Proof. exact rt_sep. Qed.
-Print Assumptions C15_roundtrip_partial_separator.
+Print Assumptions C15_roundtrip_separator.
 
 (* literals in both quote styles, with the four escapes; followed by anything *)
-Theorem C15_roundtrip_partial_literal : forall lf l k,
+Theorem C15_roundtrip_literal : forall lf l k,
   wf_lit l = true -> (length (pr_lit l k) < lf)%nat -> p_literal lf (pr_lit l k) = POk k (erase_lit l).
 Proof. exact rt_literal. Qed.
-Print Assumptions C15_roundtrip_partial_literal.
+Print Assumptions C15_roundtrip_literal.
 
 (* paths: identifiers separated by '.', with any blanks around the dots; followed by something that does not
    continue the last word and is not (after a blank) a dot *)
-Theorem C15_roundtrip_partial_path : forall lf whole, (length whole < lf)%nat -> forall p k,
+Theorem C15_roundtrip_path : forall lf whole, (length whole < lf)%nat -> forall p k,
   wf_path p = true -> pfollow lf k -> sfx (pr_path p k) whole ->
   p_path lf (pr_path p k) = POk k (erase_path p).
 Proof. exact rt_path. Qed.
-Print Assumptions C15_roundtrip_partial_path.
+Print Assumptions C15_roundtrip_path.
 
 (* annotation lists  ( key = 'value' [,;] ... )  with every blank slot, both quote styles, optional separators; followed
    by anything *)
-Theorem C15_roundtrip_partial_annotations : forall lf whole, (length whole < lf)%nat -> forall l k,
+Theorem C15_roundtrip_annotations : forall lf whole, (length whole < lf)%nat -> forall l k,
   wf_anns l = true -> sfx (pr_anns l k) whole -> p_annotations lf (pr_anns l k) = POk k (erase_anns l).
 Proof. exact rt_anns. Qed.
-Print Assumptions C15_roundtrip_partial_annotations.
+Print Assumptions C15_roundtrip_annotations.
 
 (* the cpp_type clause of a container type *)
-Theorem C15_roundtrip_partial_cpp_type : forall lf whole, (length whole < lf)%nat -> forall c k,
+Theorem C15_roundtrip_cpp_type : forall lf whole, (length whole < lf)%nat -> forall c k,
   wf_cpp c = true -> sfx (pr_cpp c k) whole ->
   (fun i => pbind (p_blank lf i) (fun i _ => p_cpp_type lf i)) (pr_cpp c k) = POk k (erase_lit (cc_lit c)).
 Proof. exact rt_cpp. Qed.
-Print Assumptions C15_roundtrip_partial_cpp_type.
+Print Assumptions C15_roundtrip_cpp_type.
 
 (* TYPES, recursive to any depth (base types, list / set / map with cpp_type clauses, paths incl. keyword-prefixed
    names, annotation lists on every type), every layout: Type::parse inverts printing.  The parser tries a cpp_type
    clause, a '.' and an annotation list after every type; [tyfollow] says the text that follows is not mistaken for them.
    [whole] is any text the printed type is a suffix of, [lf] any loop fuel above its length (parse_file uses |s|+1),
    [df] any depth fuel above the nesting of the type. *)
-Theorem C15_roundtrip_partial_type : forall lf whole, (length whole < lf)%nat -> forall df t k,
+Theorem C15_roundtrip_type : forall lf whole, (length whole < lf)%nat -> forall df t k,
   (type_depth t < df)%nat -> wf_type t = true -> tyfollow lf (type_ends_word t) k ->
   sfx (pr_type t k) whole ->
   p_type lf df (pr_type t k) = POk k (erase_type t).
 Proof. exact rt_type. Qed.
-Print Assumptions C15_roundtrip_partial_type.
+Print Assumptions C15_roundtrip_type.
 
 (* layout independence, for the part proved: two layouts of the same type give the same tree *)
-Theorem C15_layout_free_partial_type : forall lf whole1 whole2 df t1 t2 k1 k2,
+Theorem C15_layout_free_type : forall lf whole1 whole2 df t1 t2 k1 k2,
   (length whole1 < lf)%nat -> (length whole2 < lf)%nat ->
   (type_depth t1 < df)%nat -> wf_type t1 = true -> tyfollow lf (type_ends_word t1) k1 -> sfx (pr_type t1 k1) whole1 ->
   (type_depth t2 < df)%nat -> wf_type t2 = true -> tyfollow lf (type_ends_word t2) k2 -> sfx (pr_type t2 k2) whole2 ->
   erase_type t1 = erase_type t2 ->
   exists a, p_type lf df (pr_type t1 k1) = POk k1 a /\ p_type lf df (pr_type t2 k2) = POk k2 a.
 Proof. exact type_layout_free. Qed.
-Print Assumptions C15_layout_free_partial_type.
+Print Assumptions C15_layout_free_type.
 
 (* integer constants as spelled by the layout: any number of minus signs, decimal or 0x hexadecimal digits, magnitude
    within i64; the value is positional notation, negated for an odd number of signs *)
-Theorem C15_roundtrip_partial_int : forall lf i k,
+Theorem C15_roundtrip_int : forall lf i k,
   wf_int i = true -> nid k = true -> (length (pr_int i k) < lf)%nat ->
   p_int_constant lf (pr_int i k) = POk k (erase_int i).
 Proof. exact rt_int. Qed.
-Print Assumptions C15_roundtrip_partial_int.
+Print Assumptions C15_roundtrip_int.
 
 (* double constants (the parser keeps the text): optional '-', optional '+', the three body forms, exponents that are
    integer constants *)
-Theorem C15_roundtrip_partial_double : forall lf d k,
+Theorem C15_roundtrip_double : forall lf d k,
   wf_dbl d = true -> nid k = true -> (length (pr_dbl d k) < lf)%nat ->
   p_double_constant lf (pr_dbl d k) = POk k (erase_dbl d).
 Proof. exact rt_dbl. Qed.
-Print Assumptions C15_roundtrip_partial_double.
+Print Assumptions C15_roundtrip_double.
 
 (* CONSTANT VALUES: ConstValue::parse with its eight alternatives, lists and maps nested to any depth, every blank slot,
    separators ',' ';' or none between the elements.  [cvfollow]: a value that ends with a word or a number is followed by
    (a blank and) something that does not continue it *)
-Theorem C15_roundtrip_partial_const_value : forall lf whole, (length whole < lf)%nat -> forall d v k,
+Theorem C15_roundtrip_const_value : forall lf whole, (length whole < lf)%nat -> forall d v k,
   (cv_depth v < d)%nat -> wf_const v = true -> cvfollow (const_ends_word v) (const_is_path v) k ->
   sfx (pr_const v k) whole ->
   p_const_value lf d (pr_const v k) = POk k (erase_const v).
 Proof. exact rt_const. Qed.
-Print Assumptions C15_roundtrip_partial_const_value.
+Print Assumptions C15_roundtrip_const_value.
 
-(* the typedef production (typedef <blank> T <blank> alias [blank] [annotations] [separator]); [stop k]: what follows is
-   not a blank start, a separator, '(' or a quote; if the declaration ends with a word, what follows ends the word *)
-Theorem C15_roundtrip_partial_typedef : forall lf whole, (length whole < lf)%nat -> forall df c k,
-  wf_typedef c = true -> (type_depth (ctd_type c) < df)%nat ->
-  stop k = true -> (typedef_ends_word c = true -> wstop k = true) -> sfx (pr_typedef c k) whole ->
+(* the typedef production (typedef <blank> T <blank> alias [blank] [annotations] [separator]).  [eof]: the declaration
+   is the last thing of the text (then its last blank slot may end with an unterminated line comment); what follows is not
+   a separator, and -- if the declaration ends in a blank slot -- not something that would continue it ([stop]), and -- if
+   it ends with a word -- something that ends the word ([wstop]).  [lf], [df]: loop and depth fuel above the text length *)
+Theorem C15_roundtrip_typedef : forall lf whole, (length whole < lf)%nat -> forall df, (length whole < df)%nat -> forall eof c k,
+  wf_typedef eof c = true -> (eof = true -> k = []) -> nosep k = true ->
+  (tail_open (ctd_tail c) = true -> stop k = true) -> (typedef_ends_word c = true -> wstop k = true) ->
+  sfx (pr_typedef c k) whole ->
   p_typedef lf df (pr_typedef c k) = POk k (erase_typedef c).
 Proof. exact rt_typedef. Qed.
-Print Assumptions C15_roundtrip_partial_typedef.
+Print Assumptions C15_roundtrip_typedef.
+
+Theorem C15_roundtrip_constant : forall lf whole, (length whole < lf)%nat -> forall df, (length whole < df)%nat -> forall eof c k,
+  wf_constant eof c = true -> (eof = true -> k = []) -> nosep k = true ->
+  (tail_open (ck_tail c) = true -> stop k = true) -> (constant_ends_word c = true -> wstop k = true) ->
+  sfx (pr_constant c k) whole ->
+  p_constant lf df (pr_constant c k) = POk k (erase_constant c).
+Proof. exact rt_constant. Qed.
+Print Assumptions C15_roundtrip_constant.
+
+(* fields: id, requiredness (type names such as optionalFoo / required_t are legal), type, name, default value,
+   annotations, separator *)
+Theorem C15_roundtrip_field : forall lf whole, (length whole < lf)%nat -> forall df, (length whole < df)%nat -> forall f k,
+  wf_field f = true -> stop k = true -> (field_ends_word f = true -> wstop k = true) -> sfx (pr_field f k) whole ->
+  p_field lf df (pr_field f k) = POk k (erase_field f).
+Proof. exact rt_field. Qed.
+Print Assumptions C15_roundtrip_field.
+
+Theorem C15_roundtrip_struct_like : forall lf whole, (length whole < lf)%nat -> forall df, (length whole < df)%nat -> forall eof c k,
+  wf_struct eof c = true -> (eof = true -> k = []) -> nosep k = true -> (tail_open (cs_tail c) = true -> stop k = true) ->
+  sfx (pr_struct_like c k) whole ->
+  p_struct_like lf df (pr_struct_like c k) = POk k (erase_struct c).
+Proof. exact rt_struct_like. Qed.
+Print Assumptions C15_roundtrip_struct_like.
+
+Theorem C15_roundtrip_enum : forall lf whole, (length whole < lf)%nat -> forall df, (length whole < df)%nat -> forall eof c k,
+  wf_enum eof c = true -> (eof = true -> k = []) -> (ce_anns c = None -> stop k = true) -> sfx (pr_enum c k) whole ->
+  p_enum lf (pr_enum c k) = POk k (erase_enum c).
+Proof. exact rt_enum. Qed.
+Print Assumptions C15_roundtrip_enum.
+
+(* functions: oneway, result type (onewayx / throwsX are type names), arguments, throws clause *)
+Theorem C15_roundtrip_function : forall lf whole, (length whole < lf)%nat -> forall df, (length whole < df)%nat -> forall f k,
+  wf_function f = true -> nosep k = true -> (function_closed f = false -> stop k = true) ->
+  (fn_bare f = true -> is_perr (p_throws lf df k)) -> sfx (pr_function f k) whole ->
+  p_function lf df (pr_function f k) = POk k (erase_function f).
+Proof. exact rt_function. Qed.
+Print Assumptions C15_roundtrip_function.
+
+Theorem C15_roundtrip_service : forall lf whole, (length whole < lf)%nat -> forall df, (length whole < df)%nat -> forall eof c k,
+  wf_service eof c = true -> (eof = true -> k = []) -> nosep k = true -> (tail_open (sv_tail c) = true -> stop k = true) ->
+  sfx (pr_service c k) whole ->
+  p_service lf df (pr_service c k) = POk k (erase_service c).
+Proof. exact rt_service. Qed.
+Print Assumptions C15_roundtrip_service.
+
+Theorem C15_roundtrip_namespace : forall lf whole, (length whole < lf)%nat -> forall eof c k,
+  wf_namespace eof c = true -> (eof = true -> k = []) -> stop k = true ->
+  (is_nil (ns_b3 c) && is_none (ns_canns c) && sep_none (ns_sep c) = true -> wstop k = true) ->
+  sfx (pr_namespace c k) whole -> p_namespace lf (pr_namespace c k) = POk k (erase_namespace c).
+Proof. exact rt_namespace. Qed.
+Print Assumptions C15_roundtrip_namespace.
+
+(* the item dispatch (include, cpp_include, namespace, typedef, const, enum, struct, union, exception, service) *)
+Theorem C15_roundtrip_item : forall lf whole, (length whole < lf)%nat -> forall df, (length whole < df)%nat -> forall eof it k,
+  wf_item eof it = true -> item_follow eof it k -> sfx (pr_item it k) whole ->
+  p_item lf df (pr_item it k) = POk k (erase_item it).
+Proof. exact rt_item. Qed.
+Print Assumptions C15_roundtrip_item.
+
+(* ---------- THE FULL STATEMENT ---------- *)
+(* parsing the text of any well-formed layout of any document yields exactly the document's declarations, in order, with
+   nothing left unparsed *)
+Theorem C15_roundtrip : forall c : cfile, wf_file c = true -> parse_file (pr_file c []) = POk [] (erase_file c).
+Proof. exact roundtrip_file. Qed.
+Print Assumptions C15_roundtrip.
+
+(* the result does not depend on the choices the IDL leaves free *)
+Theorem C15_layout_free : forall c1 c2 : cfile, wf_file c1 = true -> wf_file c2 = true -> erase_file c1 = erase_file c2 ->
+  parse_file (pr_file c1 []) = parse_file (pr_file c2 []).
+Proof. exact layout_free_file. Qed.
+Print Assumptions C15_layout_free.
+
+(* identifiers that merely begin with a keyword, in the positions where the keyword is tried first (field types
+   optionalFoo / required_t / listing / i32x / mapper / settle / stringy / i8_, constant values trueish / falsey / true_,
+   result types onewayx / throwsX / voidx, names structure / constx / enumerate / includes / services), are legal and are
+   read as identifiers *)
+Theorem C15_keyword_prefix_document :
+  wf_file keyword_prefix_file = true /\
+  parse_file (pr_file keyword_prefix_file []) = POk [] (erase_file keyword_prefix_file).
+Proof. exact keyword_prefix_roundtrip. Qed.
+Print Assumptions C15_keyword_prefix_document.
